@@ -288,6 +288,13 @@ def nice_rational(x, max_den=5040):
     fr = Fraction(float(x)).limit_denominator(max_den)
     if float(fr) == float(x):
         return fr
+    # otherwise the shortest decimal that denotes this double (the literal the programmer wrote: 1e-6, 32.184, ...)
+    try:
+        dec = Fraction(repr(float(x)))
+        if float(dec) == float(x):
+            return dec
+    except (ValueError, ZeroDivisionError):
+        pass
     return Fraction(float(x))
 
 
@@ -308,6 +315,10 @@ class SBool:
         if z3.is_false(e):
             return False
         return cur().decide(self.e)
+
+    def __index__(self):
+        # a boolean used as an index, e.g. (-1, 1)[x >= 0]: decided by forking
+        return int(self.__bool__())
 
     def __and__(self, o):
         return SBool(z3.And(self.e, lift_bool(o)))
@@ -437,6 +448,23 @@ class SNum:
 
     def __mod__(self, o):
         return self._bin(o, mod)
+
+    def __divmod__(self, o):
+        r = self._bin(o, mod)
+        if r is NotImplemented:
+            return NotImplemented
+        if isinstance(r, SInt) or not isinstance(r, SNum):
+            return (self - r) // o, r
+        info = getattr(cur(), "modinfo", {}).get(str(r.e))
+        if info is None:
+            raise EngineLimit("divmod on this operand")
+        return SReal(z3.ToReal(info[2])), r  # python: divmod of floats returns float quotient
+
+    def ceil(self):
+        return ceil(self)
+
+    def floor(self):
+        return floor(self)
 
     def __rmod__(self, o):
         return self._bin(o, mod, True)
@@ -694,13 +722,29 @@ def floordiv(a, b):
         run.add_def(k, fact)
         run.add_def(r, fact)
         return SInt(k)
-    # real floor division by a positive constant: k int, k*b <= a < (k+1)*b
+    # real floor division by a positive constant: shares quotient and remainder with `%` on the same operands
     if cb is None or cb <= 0:
         raise EngineLimit("real floor division by a non-constant / non-positive divisor")
-    k = run.fresh("fl", "int")
-    ra, rb = real_expr(a), real_expr(b)
-    run.add_def(k, z3.ToReal(k) * rb <= ra, ra < (z3.ToReal(k) + 1) * rb)
+    k, r = _quotrem(real_expr(a), real_expr(b))
     return SReal(z3.ToReal(k))  # python: float // float is a float
+
+
+def _quotrem(ra, rb):
+    """x = rb*k + r, 0 <= r < rb, k integer (rb > 0): one pair per operand pair"""
+    run = cur()
+    memo = run.__dict__.setdefault("memo", {})
+    key = ("quotrem", ra.get_id(), rb.get_id())
+    if key in memo:
+        return memo[key][2], memo[key][3]
+    k = run.fresh("k", "int")
+    r = run.fresh("r")
+    memo[key] = (ra, rb, k, r)
+    fact = [r == ra - rb * z3.ToReal(k), r >= 0, r < rb]
+    run.add_def(r, *fact)
+    run.add_def(k, *fact)
+    run.modinfo = getattr(run, "modinfo", {})
+    run.modinfo[str(r)] = (ra, rb, k)
+    return k, r
 
 
 def mod(a, b):
@@ -711,7 +755,12 @@ def mod(a, b):
     if ia and ib:
         if cb is not None and cb > 0:
             return SInt(ea % eb)
-        raise EngineLimit("integer modulo by a non-constant / non-positive divisor")
+        run.safety("div", eb != 0)
+        k, r = run.fresh("fdiv", "int"), run.fresh("fmod", "int")
+        fact = z3.And(ea == k * eb + r, z3.Or(z3.And(eb > 0, r >= 0, r < eb), z3.And(eb < 0, r <= 0, r > eb)))
+        run.add_def(k, fact)
+        run.add_def(r, fact)
+        return SInt(r)
     ra, rb = real_expr(a), real_expr(b)
     # modulus must be provably positive: concrete, or a positive multiple of pi
     pos = cb is not None and cb > 0
@@ -723,17 +772,12 @@ def mod(a, b):
             two_pi = co == 2
     if not pos:
         raise EngineLimit(f"modulo by {rb}: not a positive constant")
-    k = run.fresh("k", "int")
-    r = run.fresh("r")
-    run.add_def(r, r == ra - rb * z3.ToReal(k), r >= 0, r < rb)
-    run.add_def(k, r == ra - rb * z3.ToReal(k))
+    k, r = _quotrem(ra, rb)
     res = SReal(r)
     if two_pi:
         c, s = cossin(ra)
         _reg_trig(r, c, s)
     run._keep.append((r, k))
-    run.modinfo = getattr(run, "modinfo", {})
-    run.modinfo[str(r)] = (ra, rb, k)
     return res
 
 
@@ -809,6 +853,33 @@ def cmp(a, b, op):
     return SBool({"<": ea < eb, "<=": ea <= eb, ">": ea > eb, ">=": ea >= eb, "==": ea == eb, "!=": ea != eb}[op])
 
 
+def floor(a):
+    """numpy.floor / math.floor: returns an integer-valued SInt"""
+    if isinstance(a, SInt):
+        return a
+    ca = concrete(a)
+    if ca is not None:
+        return math.floor(ca)
+    run = cur()
+    e = real_expr(a)
+    k = run.fresh("floor", "int")
+    run.add_def(k, z3.ToReal(k) <= e, e < z3.ToReal(k) + 1)
+    return SInt(k)
+
+
+def ceil(a):
+    if isinstance(a, SInt):
+        return a
+    ca = concrete(a)
+    if ca is not None:
+        return math.ceil(ca)
+    run = cur()
+    e = real_expr(a)
+    k = run.fresh("ceil", "int")
+    run.add_def(k, z3.ToReal(k) >= e, e > z3.ToReal(k) - 1)
+    return SInt(k)
+
+
 def sign(a):
     ca = concrete(a)
     if ca is not None:
@@ -864,10 +935,21 @@ def sqrt(a):
 _HALF_PI_TABLE = {0: (1, 0), 1: (0, 1), 2: (-1, 0), 3: (0, -1)}
 
 
+def _canon(t):
+    """polynomial normal form of an argument term: polynomially equal arguments share one (cos, sin) pair"""
+    try:
+        return z3.simplify(t, som=True, sort_sums=True)
+    except z3.Z3Exception:
+        return t
+
+
 def _reg_trig(atom, c, s):
     run = cur()
     run.trig[atom.get_id()] = (atom, c, s)
+    ca = _canon(atom)
+    run.trig.setdefault(ca.get_id(), (atom, c, s))
     run._keep.append(atom)
+    run._keep.append(ca)
 
 
 def _resolve_pi_multiple(t):
@@ -901,6 +983,8 @@ def _resolve_pi_multiple(t):
 def _atom_pair(t):
     run = cur()
     hit = run.trig.get(t.get_id())
+    if hit is None:
+        hit = run.trig.get(_canon(t).get_id())
     if hit is not None:
         return hit[1], hit[2]
     if getattr(run, "trig_resolve", False) and not z3.is_const(t):
